@@ -762,6 +762,18 @@ def main(tier, seed):
             recs.append({"id": ids[0], "kind": "scan", "cfg": cfg, "days": [{"date": d, "runs": scan_day(b, d, P)} for d in days],
                          "_src": "random", "_replay": {"kind": "scan", "cfg": cfg, "dates": days, "dtype": dtype}})
             chk.case(("T-scan", ci), nontrivial=True, n=len(P) * len(days))
+            # the calendars a schedule refers to are objects of their own: after their date lists have been edited (here: swapped
+            # round / emptied) the SAME schedule object, already evaluated on these days, shows what the calendars say now
+            if cfg["cals"] and any(x["period"]["kind"] == "cal" for x in cfg["exc"]):
+                cals2 = [list(l) for l in cfg["cals"][1:] + cfg["cals"][:1]] if len(cfg["cals"]) > 1 and cfg["cals"][0] != cfg["cals"][1] \
+                    else [[] for _ in cfg["cals"]]
+                cfg2 = dict(cfg, cals=cals2)
+                for co, lst in zip(b.objs, cals2):
+                    co.dateList = ListOf(CalendarEntry)([mk_entry(e) for e in lst])
+                ids[0] += 1
+                recs.append({"id": ids[0], "kind": "scan", "cfg": cfg2, "days": [{"date": d, "runs": scan_day(b, d, P)} for d in days],
+                             "_src": "random, calendars edited", "_replay": {"kind": "scan", "cfg": cfg2, "dates": days, "dtype": dtype}})
+                chk.case(("T-scan-edited", ci), nontrivial=True, n=len(P) * len(days))
         finally:
             b.close()
         # (a sub-second creation instant only for dates after 1970: Time.now() of a negative fractional clock is another story)
